@@ -2039,7 +2039,9 @@ func (sa *Application) removeAllocationInternal(allocationKey string, releaseTyp
 			}
 			eventWarning = "Application state not changed to Completing while removing an allocation"
 		}
-		sa.decUserResourceUsage(alloc.GetAllocatedResource(), removeApp)
+		// the user and group trackers must keep the application while it still has placeholders allocated: their
+		// usage is tracked for the application and is released through the same link later
+		sa.decUserResourceUsage(alloc.GetAllocatedResource(), removeApp && resources.IsZero(sa.allocatedPlaceholder))
 	}
 	if event != EventNotNeeded {
 		if err := sa.HandleApplicationEvent(event); err != nil {
